@@ -6,7 +6,8 @@ package dkgprops
 // success - same eon public key, same public key shares, each secret share
 // verifies against its public share, every t-subset of them decrypts a
 // message encrypted to the eon key, their DKGResult votes on chain match
-// their rows; all honest + every message inside its phase => all succeed;
+// their rows; all honest + every message inside its phase => all succeed; shuttermint
+// never answers an honest keyper's DKG message for a started eon with an error;
 // shuttermint never panics and its replicas agree.
 //
 // Derived oracles (signature prefix "derived-", stronger than the statement,
@@ -628,6 +629,72 @@ func TestC07_OverlappingEons(t *testing.T) {
 					rec.Violation(sig, detail, path)
 					t.Errorf("VERIF-FAIL signature=%s :: %s", sig, detail)
 				})
+				if inc != "" {
+					rec.Inconclusive(inc)
+					t.Fatalf("inconclusive: %s", inc)
+				}
+			}
+		}
+	}
+}
+
+// TestC07_FixedAdversaries: a few hand-made scenarios with two colluding
+// Byzantine keypers that the random walk reaches only now and then: both
+// deal correctly and both accuse every honest keyper, so that every honest
+// keyper has to answer two accusers in one apology message.
+func TestC07_FixedAdversaries(t *testing.T) {
+	rec := recorder("C07")
+	rec.AddRule(c07Rule)
+	rec.AddRule("fixed adversaries: (n=5,t=3) and (n=4,t=2) with two Byzantine keypers that deal correctly and both accuse all honest keypers (every honest keyper apologizes to two accusers in one message), apology of the Byzantine keypers correct / none, under the plain schedule and two generated ones")
+	c07Assumptions(rec)
+	idx := 0
+	for _, nt := range [][2]int{{5, 3}, {4, 2}} {
+		n, th := nt[0], nt[1]
+		for _, apo := range []int{apCorrect, apNone} {
+			for sched := 0; sched < 3; sched++ {
+				idx++
+				if thorough() && !mySlice(idx) {
+					continue
+				}
+				if !thorough() && sched == 2 {
+					continue
+				}
+				sc := Scenario{N: n, T: th, L: 8, Order: []int{3, 1, 4, 0, 2}[:n], Byz: map[int]ByzStrategy{}, Fair: true, ForkEnabled: idx%2 == 1}
+				if n == 4 {
+					sc.Order = []int{3, 1, 0, 2}
+				}
+				var honest []int
+				for p := 0; p < n-2; p++ {
+					honest = append(honest, p+1)
+				}
+				byzPos := []int{0, n - 1}
+				for _, b := range byzPos {
+					st := ByzStrategy{Commit: cmCorrect, Eval: map[int]int{}, Apology: apo, DealOff: 1 + idx%3, AccOff: 1 + b%4, ApoOff: 2}
+					for p := 0; p < n; p++ {
+						if p != b {
+							st.Eval[p] = evCorrect
+						}
+					}
+					st.Accuse = append([]int{}, honest...)
+					sc.Byz[b] = st
+				}
+				failed := false
+				fail := func(sig, format string, args ...any) {
+					if failed {
+						return
+					}
+					failed = true
+					detail := fmt.Sprintf(format, args...)
+					path := rec.SaveReplay(t.Name(), fmt.Sprintf("fixedadv-%d-seed%d", idx, seed), map[string]any{"index": idx, "seed": seed, "scenario": sc.String()})
+					rec.Violation(sig, detail, path)
+					t.Errorf("VERIF-FAIL signature=%s :: %s", sig, detail)
+				}
+				var inc string
+				if sched == 0 {
+					inc = runC07CasePlain(rec, sc, fail)
+				} else {
+					inc = runC07Case(rec, sc, &detChooser{seed: fmt.Sprintf("fixedadv/%d/%d", seed, idx)}, fail)
+				}
 				if inc != "" {
 					rec.Inconclusive(inc)
 					t.Fatalf("inconclusive: %s", inc)
